@@ -62,17 +62,17 @@ def run(P, rep, tier):
     rep.not_decided = NOT_DECIDED
     rep.assumptions = ASSUMPTIONS
     ctx = Ctx(P)
-    r1_sinks(P, rep, ctx, whole_package=False)
-    r1b_open_rplus(P, rep, ctx)
-    r2_provenance(P, rep, ctx)
-    r3_typestate(P, rep, ctx)
-    r4_overlay_writes(P, rep, ctx)
+    rep.attempt(r1_sinks, P, rep, ctx, whole_package=False)
+    rep.attempt(r1b_open_rplus, P, rep, ctx)
+    rep.attempt(r2_provenance, P, rep, ctx)
+    rep.attempt(r3_typestate, P, rep, ctx)
+    rep.attempt(r4_overlay_writes, P, rep, ctx)
     from . import c11
 
     # the manifest sidecar of a committed container is only replaced after a successful commit
-    c11.r2_manifest_after_commit(P, rep, ctx, rule="C02.R6")
+    rep.attempt(c11.r2_manifest_after_commit, P, rep, ctx, rule="C02.R6")
     if tier == "thorough":
-        r1_sinks(P, rep, ctx, whole_package=True)
+        rep.attempt(r1_sinks, P, rep, ctx, whole_package=True)
     rep.floor("C02.R1", 9, "file-system sinks in ih5/")
     rep.floor("C02.R2", 6, "owner call sites")
     rep.floor("C02.R4", 11, "raw write sites in overlay.py")
